@@ -63,13 +63,14 @@ var mtranslated = map[string]*msig{}
 
 type mtr struct {
 	*tr
-	it     string          // name of the iterator parameter
-	decl   map[string]*ty  // declared types of the locals (a dropped variable is re-introduced with its type)
-	ptrVar map[string]bool // named results that are Go pointers modelled as the record
-	nonNil map[string]bool // access paths statically known to be non-nil
-	fnTy   map[string]bool // parameters of function type (called as predicates)
-	ntmp   int
-	resPtr []bool
+	it       string           // name of the iterator parameter
+	decl     map[string]*ty   // declared types of the locals (a dropped variable is re-introduced with its type)
+	ptrVar   map[string]bool  // named results that are Go pointers modelled as the record
+	nonNil   map[string]bool  // access paths statically known to be non-nil
+	fnTy     map[string]bool  // parameters of function type (called as predicates)
+	sliceLen map[string]int64 // byte slices read with a constant length
+	ntmp     int
+	resPtr   []bool
 }
 
 func isIterType(e ast.Expr) bool {
@@ -107,6 +108,26 @@ func (p *pkg) predicateType(e ast.Expr) (string, bool) {
 		return "", false
 	}
 	return sid.Name, true
+}
+
+// signedWidth: the width of a signed integer type (0 for anything else).
+func (p *pkg) signedWidth(name string) int {
+	switch name {
+	case "int", "int64":
+		return 64
+	case "int32", "rune":
+		return 32
+	case "int16":
+		return 16
+	case "int8":
+		return 8
+	}
+	if u, ok := p.types[name]; ok {
+		if id, ok := u.(*ast.Ident); ok {
+			return p.signedWidth(id.Name)
+		}
+	}
+	return 0
 }
 
 func iterParam(d *ast.FuncDecl) string {
@@ -274,6 +295,17 @@ func (m *mtr) hoist(e ast.Expr, pre *string, guarded bool) ast.Expr {
 		for k, a := range e.Args {
 			c.Args[k] = m.hoist(a, pre, guarded)
 		}
+		// conversion of an unsigned value to a signed type that is not wider: two's complement reinterpretation
+		if id, ok := e.Fun.(*ast.Ident); ok && len(e.Args) == 1 {
+			if sw := m.p.signedWidth(id.Name); sw > 0 {
+				as, at := m.expr(c.Args[0])
+				if at.k == "int" && at.w >= sw {
+					name := fmt.Sprintf("(sint %d %s)", sw, as)
+					m.env[name] = tInt
+					return &ast.Ident{Name: name, NamePos: e.Pos()}
+				}
+			}
+		}
 		if sel, ok := e.Fun.(*ast.SelectorExpr); ok {
 			s := *sel
 			s.X = m.hoist(sel.X, pre, guarded)
@@ -322,10 +354,17 @@ func (m *mtr) hoist(e ast.Expr, pre *string, guarded bool) ast.Expr {
 		c.X = m.hoist(e.X, pre, guarded)
 		return &c
 	case *ast.IndexExpr:
-		c := *e
-		c.X = m.hoist(e.X, pre, guarded)
-		c.Index = m.hoist(e.Index, pre, guarded)
-		return &c
+		// x[k] is accepted only where it cannot panic: k a literal below the length x was read with
+		xid, ok := e.X.(*ast.Ident)
+		kv, okk := m.p.evalConst(e.Index, map[string]bool{})
+		if !ok || !okk {
+			m.fail(e, "index expression that is not <slice variable>[<constant>]")
+		}
+		n, known := m.sliceLen[xid.Name]
+		if !known || kv.Sign() < 0 || kv.Int64() >= n {
+			m.fail(e, "index %s[%s] is not statically within the length the slice was read with", xid.Name, kv.String())
+		}
+		return e
 	case *ast.CompositeLit:
 		c := *e
 		c.Elts = make([]ast.Expr, len(e.Elts))
@@ -757,6 +796,10 @@ func isAlloc(e ast.Expr) bool {
 
 // assignTo emits the let that stores the value rs (of type rt) into lhs.
 func (m *mtr) assignTo(lhs ast.Expr, tok token.Token, rs string, rt *ty, nonNil bool, n ast.Node) string {
+	return m.assignTo2(lhs, tok, rs, rt, nonNil, false, n)
+}
+
+func (m *mtr) assignTo2(lhs ast.Expr, tok token.Token, rs string, rt *ty, nonNil bool, keepLen bool, n ast.Node) string {
 	if isIdent(lhs, "_") {
 		return ""
 	}
@@ -796,6 +839,9 @@ func (m *mtr) assignTo(lhs ast.Expr, tok token.Token, rs string, rt *ty, nonNil 
 	m.clearPath(path)
 	if nonNil {
 		m.nonNil[path] = true
+	}
+	if id, ok := lhs.(*ast.Ident); ok && !keepLen {
+		delete(m.sliceLen, id.Name)
 	}
 	return out
 }
@@ -1197,6 +1243,12 @@ func (m *mtr) bindCall(as *ast.AssignStmt) string {
 				m.fail(call, "%s needs one argument", meth)
 			}
 			a, _ := m.expr(m.hoist(c.Args[0], &pre, false))
+			if id, ok := lhs[0].(*ast.Ident); ok && len(lhs) == 1 {
+				delete(m.sliceLen, id.Name)
+				if n, ok := m.p.evalConst(c.Args[0], map[string]bool{}); ok && n.Sign() >= 0 {
+					m.sliceLen[id.Name] = n.Int64()
+				}
+			}
 			prim := "next_bytes"
 			if meth == "NextBytesNoCopy" {
 				prim = "next_bytes_nocopy"
@@ -1241,7 +1293,7 @@ func (m *mtr) bindCall(as *ast.AssignStmt) string {
 		if sel, ok := l.(*ast.SelectorExpr); ok {
 			m.checkDerefs(sel.X)
 		}
-		o += m.assignTo(l, token.ASSIGN, tmps[k], resTy[k], resPtr[k], as)
+		o += m.assignTo2(l, token.ASSIGN, tmps[k], resTy[k], resPtr[k], true, as)
 	}
 	return o
 }
@@ -1306,7 +1358,7 @@ func (p *pkg) mfunction(key string) string {
 	}
 	var loops []string
 	t := &tr{p: p, fn: key, env: map[string]*ty{}, optPar: map[string]bool{}, loops: &loops}
-	m := &mtr{tr: t, it: it, decl: map[string]*ty{}, ptrVar: map[string]bool{}, nonNil: map[string]bool{}, fnTy: map[string]bool{}}
+	m := &mtr{tr: t, it: it, decl: map[string]*ty{}, ptrVar: map[string]bool{}, nonNil: map[string]bool{}, fnTy: map[string]bool{}, sliceLen: map[string]int64{}}
 	sig := &msig{}
 	var params []string
 	for _, f := range d.Type.Params.List {
@@ -1406,7 +1458,8 @@ func (p *pkg) emitParseGen() string {
 		"   x.f = v is `let x := set_T_f v x` (the record with that field replaced), conditional blocks return the variables they\n" +
 		"   assign that are still live.  Proofs/ParseGenEq.v proves the hand-written models of Model/Clock.v, Model/Packet.v and\n" +
 		"   Model/Pes.v equal to these definitions. *)\n" +
-		"From Coq Require Import ZArith List Bool.\nRequire Import Base.Iter Gen.Consts Gen.Types Gen.Preds.\nImport ListNotations.\nOpen Scope Z_scope.\nOpen Scope iter_scope.\n\n"
+		"From Coq Require Import ZArith List Bool.\nRequire Import Base.Iter Gen.Consts Gen.Types Gen.Preds.\nImport ListNotations.\nOpen Scope Z_scope.\nOpen Scope iter_scope.\n\n" +
+		"(* intN(x) for an unsigned x of at least N bits: the two's complement reading of its low N bits *)\nDefinition sint (w x : Z) : Z := (x + 2 ^ (w - 1)) mod 2 ^ w - 2 ^ (w - 1).\n\n"
 	var b strings.Builder
 	for _, key := range parseEntries {
 		func() {
